@@ -69,7 +69,7 @@ for pid,(tech,text,note) in sorted(claimed.items()):
     })
 m={
  "version": 1,
- "setup_cmd": "cd /verif && CARGO_NET_OFFLINE=true cargo build --release --manifest-path harness/Cargo.toml",
+ "setup_cmd": "cd /verif/harness && CARGO_NET_OFFLINE=true cargo build --release --target-dir /verif/target",
  "hooks": {
    "guard": "cargo feature verif-hooks",
    "enable": "the harness depends on prefix-trie = { path = \"/repo\", features = [..., \"verif-hooks\"] }",
